@@ -8,12 +8,11 @@ import time
 from vlib import core
 
 META = {
-    "claimed": False,
     "harness_bins": ["c19"],
     "extract": "C19.v",
     "technique": "Coq proof: invariant of a FileId-level model of nls' World bookkeeping (source cache, analysis registry, imports/rev_imports, failed_imports, invalidate/typecheck recursion) over every didOpen/didChange/didClose history; model tied to the real `nls` binary by differential replay of histories over JSON-RPC (per-step diagnostics publications), and a direct oracle comparing every answer with a freshly started server",
-    "level_text": "Theorems (coq/Props/C19.v), for every didOpen/didChange/didClose history of a conforming client whose documents' imports respect one DAG order, every iteration order of the server's hash maps and every recursion budget above the DAG depth: the server model never crashes (C19_no_crash); every cached analysis of a current file was computed from the current text and its diagnostics equal those recomputed from the final documents (C19_analysis_fresh); two histories ending in the same documents leave the same analyses and every open document has one (C19_answers_history_independent, C19_open_analysed); rev_imports/failed_imports cover what cached analyses read (C19_rev_imports_complete, C19_failed_imports_complete); last published diagnostics of current files are the fresh ones and every open document is published (C19_no_dup_no_stale: for the code with the proposed close_file patch, and for the code as it is on histories without didClose). Refuted for the code as it is, with replayed witnesses: C19_closed_buffer_refuted, C19_cycle_order_refuted, C19_self_import_diverges. The theorems are about a hand-written FileId-level model of SourceCache + World::{add_file,update_file,close_file,invalidate,parse,typecheck,typecheck_uncached} + the notification handlers; it is tied to lsp/nls by running the same histories on the extracted model and on the `nls` binary rebuilt from /repo (JSON-RPC, background evaluation off), comparing the multiset of publishDiagnostics of every step (and the whole bookkeeping state when hook H8 is present); independently every history is followed by a fresh server shown the final documents, and pulled diagnostics, hover, definition, references, completion and documentSymbol at every identifier are compared (direct oracle).",
-    "level_note": "Trusted: Coq kernel; extraction (ExtrOcamlBasic only); the reading of world.rs/cache.rs in coq/Lsp/World.v (document contents abstracted to import list + ok/type error/parse error; one directory; disk fixed during a history; Nickel files only); harness bin c19 and its document template. Not modelled: contents of hover/definition/references/completion answers (direct oracle only), background evaluation, non-Nickel imports, contract configs, file watcher, disk changes during a session.",
+    "level_text": "Theorems (coq/Props/C19.v), for every didOpen/didChange/didClose history of a conforming client whose documents' imports respect one DAG order, every iteration order of the server's hash maps and every recursion budget above the DAG depth: the server model never crashes (C19_no_crash); every cached analysis of a current file was computed from the current text and its diagnostics equal those recomputed from the final documents (C19_analysis_fresh); two histories ending in the same documents leave the same analyses and every open document has one (C19_answers_history_independent, C19_open_analysed); rev_imports/failed_imports cover what cached analyses read (C19_rev_imports_complete, C19_failed_imports_complete); last published diagnostics of current files are the fresh ones and every open document is published (C19_no_dup_no_stale). C19_no_dup_no_stale holds for the code as it is now on every such history, and only on histories without didClose for the code before fix 36b39fb. Refuted, with replayed witnesses: C19_closed_buffer_refuted and C19_self_import_diverges (code before fixes 36b39fb / 257606a; the check verifies on every run that the code under test follows the fixed configuration), C19_cycle_order_refuted (cyclic imports, still the case: known finding). The theorems are about a hand-written FileId-level model of SourceCache + World::{add_file,update_file,close_file,invalidate,parse,typecheck,typecheck_uncached} + the notification handlers; it is tied to lsp/nls by running the same histories on the extracted model and on the `nls` binary rebuilt from /repo (JSON-RPC, background evaluation off), comparing the multiset of publishDiagnostics of every step (and the whole bookkeeping state when hook H8 is present); independently every history is followed by a fresh server shown the final documents, and pulled diagnostics, hover, definition, references, completion and documentSymbol at every identifier are compared (direct oracle).",
+    "level_note": "Trusted: Coq kernel; extraction (ExtrOcamlBasic only); the reading of world.rs/files.rs/cache.rs in coq/Lsp/World.v (document contents abstracted to text id + import list + ok/type error/parse error; one directory, so failed_imports' base-name keying is not exercised; disk fixed during a history; Nickel files only); harness bin c19 (own JSON-RPC client, document template) and the classification of diagnostics messages into 5 classes; the nls binary cargo builds from /repo. Partial: the theorems assume one DAG order on imports for the whole history (histories whose import graph is acyclic at every moment but not compatible with a single order, cyclic imports and self imports are outside: cyclic imports are a refuted class = known finding; self imports are handled by the code since fix 257606a and covered by the tie and the oracle only) and a client that sends didChange only for open documents; absence of duplicate diagnostics is not a theorem (set equality only) and is carried by the multiset comparisons of the tie and the oracle; contents of hover/definition/references/completion/symbol answers are not modelled (direct oracle only); not covered: background evaluation, non-Nickel imports, contract configs, file watcher, disk changes during a session. Exhaustive histories go to length 3 (11-symbol alphabet) and 4 (7 symbols) over 3 disk configurations, not length 5 as planned in DESIGN.md (one server process per history).",
 }
 
 N = 4
@@ -215,6 +214,25 @@ def cycle_facts(line):
     return cyc, selfimp
 
 
+def in_theorem_class(line):
+    """Do all document versions of the history (and the disk) respect one DAG order on paths,
+    i.e. is the union of all their import edges acyclic (hypothesis `good` of the theorems)?"""
+    disk, ops = parse_case(line)
+    g = {}
+    for p, c in list(disk.items()) + [(op[1], op[2]) for op in ops if op[0] != "X"]:
+        g.setdefault(p, set()).update(c[1])
+    color = {}
+
+    def dfs(u):
+        color[u] = 1
+        for v in g.get(u, ()):
+            if color.get(v) == 1 or (v not in color and dfs(v)):
+                return True
+        color[u] = 2
+        return False
+    return not any(p not in color and dfs(p) for p in list(g))
+
+
 def only_formerly_imported(case, oracle):
     """Every disagreement is a `references` answer in which the history server additionally lists
     locations inside files that exist on disk and were never opened during the history (files it
@@ -266,6 +284,12 @@ def detect_cfg(ck, exe_nls, exe_model):
         ck.obligation("correspondence:probe", "internal", False, "rc=%s %s %s" % (rc, err[-400:], ex))
     cfg = "".join(flags)
     ck.coverage["model_configuration"] = {"purge_closed": flags[0] == "1", "self_guard": flags[1] == "1"}
+    # the claims rest on the fixed code: C19_no_dup_no_stale needs purge_closed (fix 36b39fb),
+    # C19_no_crash outside the DAG class needs the self-import guard (fix 257606a)
+    ck.obligation("correspondence:close_file-forgets-the-closed-file-id", "correspondence", flags[0] == "1",
+                  "" if flags[0] == "1" else "the code under test re-analyses closed buffers (model configuration purge_closed = false); witness: " + PROBE_PURGE)
+    ck.obligation("correspondence:resolve-guards-self-import", "correspondence", flags[1] == "1",
+                  "" if flags[1] == "1" else "the code under test overflows its stack on a self import (model configuration self_guard = false); witness: " + PROBE_SELF)
     return cfg
 
 
@@ -300,6 +324,7 @@ def compare(ck, cases, impl_out, model_out, patched_out, hooks=False):
         ck.case(key=case, nontrivial=(nops >= 3))
         ck.hist("history_length", nops)
         ck.hist("class", "self-import" if selfimp else "cyclic" if cyc else "dag")
+        ck.count("histories_satisfying_the_theorems_hypothesis" if in_theorem_class(case) else "histories_outside_the_theorems_hypothesis")
         for tok in (case.split()[2].split(",") if len(case.split()) > 2 else []):
             ck.hist("ops", tok[:1])
         if mdead:
@@ -365,7 +390,7 @@ def run(ck):
     g = Gen(rng.fork())
     cases = corpus()
     ncorp = len(cases)
-    n = 1200 if ck.tier == "quick" else 30000
+    n = 1200 if ck.tier == "quick" else 20000
     if os.environ.get("VERIF_C19_N"):            # only for sanity-testing the check itself (mutants)
         n = int(os.environ["VERIF_C19_N"])
     for i in range(n):
@@ -390,8 +415,7 @@ def run(ck):
                            "(a..d in one scratch directory, each on disk with probability 1/2, disk fixed); a document version = "
                            "(fresh id, import list, ok | type error | parse error); 70%% of histories draw imports from a fixed DAG order, "
                            "30%% are unrestricted (cycles, rare self imports); non-trivial = at least 3 operations; distinct by exact text" % N)
-    ck.coverage["partial"] = ("theorems assume one DAG order on imports for the whole history; cyclic imports, self imports and re-analysis of "
-                              "closed buffers are refuted classes (known findings); answer contents are compared by the direct oracle only")
+    ck.coverage["partial"] = ("theorems assume one DAG order on imports for the whole history; cyclic imports are a refuted class (known finding); answer contents are compared by the direct oracle only")
     ck.trusted += ["extraction: ExtrOcamlBasic only", "harness bin c19 (JSON-RPC client, document template)",
                    "nls binary built by cargo from /repo into .build/target-nls",
                    "generator checks/c19.py (SplitMix64, VERIF_SEED)"]
